@@ -56,11 +56,13 @@ def proj_chart(m) -> dict:
         v = getattr(m, k)
         if k == "tags":
             words = [str(x) for x in v] if isinstance(v, (list, tuple)) else str(v).split()
-            ch["meta"][k] = {"str": " ".join(words), "words": words, "num": 0}
+            ch["meta"][k] = {"str": " ".join(words), "words": words, "num": 0, "hi": 0}
         elif isinstance(v, (bool, int, float)) and not isinstance(v, str):
-            ch["meta"][k] = {"str": sval(v), "words": [], "num": int(round(float(v) * 1000))}
+            from harness.osu_text import limbs
+            hi, lo = limbs(int(round(float(v) * 1000)))
+            ch["meta"][k] = {"str": sval(v), "words": [], "num": lo, "hi": hi}
         else:
-            ch["meta"][k] = {"str": sval(v), "words": str(v).split(), "num": 0}
+            ch["meta"][k] = {"str": sval(v), "words": str(v).split(), "num": 0, "hi": 0}
     return ch
 
 
@@ -103,7 +105,12 @@ def exec_osu(scn):
         rec["exc"] = exc_name(e)
     out.append(rec)
     if m is not None and not rec["exc"]:
-        out += write_records(m, scn["id"], "osu.write.after_read")
+        if scn["variant"] % 4 == 2 and scn["keys"] <= 15:
+            # history: the chart is moved to a larger key count after it was read
+            m.circle_size = scn["keys"] + 3
+            out += write_records(m, scn["id"], "osu.write.rechart")
+        else:
+            out += write_records(m, scn["id"], "osu.write.after_read")
     return out
 
 
